@@ -16,6 +16,7 @@ does) and leaves the state alone when `Operation.apply` raises.  `JV` is a JSON
 tree (`json.dumps/loads` themselves are not modelled).
 -/
 import EdbVerif.Lemmas.ConfigInv
+import EdbVerif.Lemmas.ConfigExcl
 import EdbVerif.Lemmas.ConfigExample
 import EdbVerif.Lemmas.Memory
 
@@ -91,14 +92,34 @@ theorem C19_seq_reset (sp : Spec) (m m' : SMap) (sc : Scope) (name : String) (v 
 
 /-- ADD (CONFIGURE … INSERT) on an object setting is insertion of the coerced
     object into the current set (stored, else default); it succeeds only if the
-    result has pairwise unequal elements (`__eq__` = equality on the unique fields). -/
+    result has pairwise unequal elements (`__eq__`: same type spec and equal
+    own unique fields) AND no two elements – of whatever (sub)types – agree on
+    an exclusive field at its unique site (`NoClash`). -/
 theorem C19_seq_add (sp : Spec) (m m' : SMap) (sc : Scope) (name : String) (v : JV)
     (h : apply sp m ⟨.add, sc, name, v⟩ = .ok m') :
     ∃ s t o l, sp.get name = some s ∧ s.ty = .obj t ∧
       fromPyValue sp t false v = .ok (some o) ∧ existValue m name s = .objs l ∧
       m' = setValue m name (.objs (l ++ [o])) sc ∧
-      (l ++ [o]).Pairwise (fun a b => a.pyEq b = false) :=
-  apply_add_inv sp m m' sc name v h
+      (l ++ [o]).Pairwise (fun a b => a.pyEq b = false) ∧
+      (l ++ [o]).Pairwise NoClash := by
+  obtain ⟨s, t, o, l, h1, h2, h3, h4, h5, h6, h7⟩ := apply_add_inv sp m m' sc name v h
+  exact ⟨s, t, o, l, h1, h2, h3, h4, h5, h6, checkUnique_excl _ _ h7⟩
+
+/-- SET of a list on an object setting (`coerce_object_set`): the stored
+    elements are pairwise unequal and pairwise free of exclusivity clashes. -/
+theorem C19_seq_set_objs (sp : Spec) (t : TSpec) (so : Bool) (v : JV) (l : List Obj)
+    (h : coerceObjectSet sp t so v = .ok l) :
+    l.Pairwise NoClash ∧ l.Pairwise (fun a b => a.pyEq b = false) :=
+  coerceObjectSet_excl sp t so v l h
+
+/-- `get_field_unique_site`: the site is the TOP-MOST type of the chain self,
+    parent, grand-parent, … on which the field is exclusive (so sibling subtypes
+    inheriting an exclusive field share its site). -/
+theorem C19_unique_site (t : TSpec) (k : String) :
+    t.uniqueSite k =
+      ((({ name := t.name, fields := t.fields } : TBase) :: t.ancestors).filter
+          (fun b => fieldUniqueIn b.fields k)).getLast?.map (·.name) :=
+  uniqueSite_top t k
 
 /-- REM erases the elements equal to the given object (absent: nothing is
     removed, no error); REM of `None` rewrites the set unchanged. -/
@@ -111,10 +132,13 @@ theorem C19_seq_rem (sp : Spec) (m m' : SMap) (sc : Scope) (name : String) (v : 
   apply_rem_inv sp m m' sc name v h
 
 /-- `_check_object_set_uniqueness`: success returns its input, pairwise
-    unequal and at most `MAX_CONFIG_SET_SIZE` long. -/
+    unequal, pairwise without two objects agreeing on an exclusive field at its
+    unique site, and at most `MAX_CONFIG_SET_SIZE` long. -/
 theorem C19_seq_unique (l l' : List Obj) (h : checkUnique l = .ok l') :
-    l' = l ∧ l'.Pairwise (fun a b => a.pyEq b = false) ∧ l'.length ≤ MAX_CONFIG_SET_SIZE :=
-  checkUnique_ok l l' h
+    l' = l ∧ l'.Pairwise (fun a b => a.pyEq b = false) ∧ l'.Pairwise NoClash ∧
+    l'.length ≤ MAX_CONFIG_SET_SIZE := by
+  obtain ⟨h1, h2, h3⟩ := checkUnique_ok l l' h
+  exact ⟨h1, h2, checkUnique_excl l l' h, h3⟩
 
 /-- Frame: a successful operation changes no other setting of its layer, keeps
     the keys unique, and tags the entry with the operation's name and scope. -/
@@ -248,16 +272,34 @@ example : SpecOK exSpec := by
   · intro n t h; rw [exSpec_types n t h]; exact exPort_ok
   · intro n s t h hty
     have := exSpec_get n s h
-    simp [exSpec] at this
+    simp [exSpec, exSettings] at this
     rcases this with rfl | rfl | rfl | rfl | rfl | rfl <;> simp at hty <;> subst hty <;> decide
   · intro n s t h hty
     have := exSpec_get n s h
-    simp [exSpec] at this
+    simp [exSpec, exSettings] at this
     rcases this with rfl | rfl | rfl | rfl | rfl | rfl <;> simp at hty <;> simp [ValOK]
   · intro n s t h hty hso
     have := exSpec_get n s h
-    simp [exSpec] at this
+    simp [exSpec, exSettings] at this
     rcases this with rfl | rfl | rfl | rfl | rfl | rfl <;> simp at hty hso <;> simp [← hty]
+
+/-- a hierarchy: `name` exclusive on the parent and inherited, `token` exclusive on one subtype only -/
+def exProv : TBase := { name := "Prov", fields := [{ name := "name", ty := .sc .str, unique := true }] }
+def exSmtp : TSpec := { name := "Smtp", ancestors := [exProv], fields :=
+  [{ name := "name", ty := .sc .str, unique := true },
+   { name := "token", ty := .sc .str, unique := true, default := some (.sc .none) }] }
+def exWeb : TSpec := { name := "Web", ancestors := [exProv], fields :=
+  [{ name := "name", ty := .sc .str, unique := true }] }
+def exObj (t : TSpec) (n : String) : Obj :=
+  { tspec := t, vals := t.fields.map fun f => (f.name, if f.name = "name" then .sc (.str n) else .sc .none) }
+
+/-- sibling subtypes share the site of the inherited exclusive field, so equal
+    names are rejected although the objects are not `__eq__`; different names pass -/
+example : exSmtp.uniqueSite "name" = some "Prov" ∧ exWeb.uniqueSite "name" = some "Prov" ∧
+    exSmtp.uniqueSite "token" = some "Smtp" := by decide
+example : (exObj exSmtp "a").pyEq (exObj exWeb "a") = false ∧
+    checkUnique [exObj exSmtp "a", exObj exWeb "a"] = .error .constraintViolation ∧
+    checkUnique [exObj exSmtp "a", exObj exWeb "b"] = .ok [exObj exSmtp "a", exObj exWeb "b"] := by decide
 
 /-- the JSON theorem's hypothesis is satisfiable by a non-trivial map -/
 def exMap : SMap := (run exSpec {} exOps).sess
